@@ -167,15 +167,34 @@ def r4(ctx, F, rule, sfx):
     cv, _ = ip.call_body(hc, [ip.ref_to(hs), x])
     ctx.evaluations += ip.evaluations
     e = dot3(c3(n), c3(x)) - RF.sym('d')
-    leaves = cases(cv)
-    vals = sorted(repr(l) for _, l in leaves)
-    want = sorted([repr(RF.const(0)), repr(nf.fn_signum(e))])
-    tie_ok = False
-    for conds, leaf in leaves:
-        if as_rf(leaf).is_zero() and len(conds) == 1:
-            c = conds[0]
-            tie_ok = c.op == 'cmp' and c.args[0] == '<' and c.args[1] == nf.fn_abs(e) and repr(c.args[2]) == 'errb'
-    ctx.check(rule, 'clip-value' + sfx, vals == want and tie_ok, 'clip(v) in {%s}' % ', '.join(vals)[:200], '0 when |n.v-d| < errb else signum(n.v-d)', where(hc), key_extra='clip')
+    # semantic table: tie (|e| < errb) -> 0, otherwise the sign of e; written with signum or with comparisons alike
+    from .. import dtab
+    tie_leaf = I.b_cmp('<', nf.fn_abs(e), RF.sym('errb'))
+    sg = I.single_atom(nf.fn_signum(e))
+    bad = []
+    shape_ok = True
+    for tie in (True, False):
+        for s_ in ((0,) if tie else ()) + (-1, 1):
+            def val(leaf, tie=tie, s_=s_):
+                if leaf == tie_leaf:
+                    return tie
+                if leaf == I.b_not(tie_leaf):
+                    return not tie
+                if leaf.op == 'cmp' and isinstance(leaf.args[1], RF) and isinstance(leaf.args[2], RF):
+                    d = leaf.args[1] - leaf.args[2]
+                    q = d / e
+                    if q.is_const() and q.const_value() != 0:
+                        sd = s_ * (1 if q.const_value() > 0 else -1)
+                        return {'<': sd < 0, '<=': sd <= 0, '==': sd == 0, '!=': sd != 0}[leaf.args[0]]
+                raise AnalysisIncomplete('clip() depends on a condition outside its model: %r' % (leaf,))
+            r = dtab.evaluate(as_rf(cv) if not isinstance(cv, I.Ite) else cv, val)
+            r = as_rf(r)
+            if sg is not None:
+                r = I.subst(r, {sg: RF.const(s_)})
+            want = 0 if tie else s_
+            if not (r.is_const() and r.const_value() == want):
+                bad.append((tie, s_, repr(r)))
+    ctx.check(rule, 'clip-value' + sfx, not bad, 'mismatching cases (tie, sign of n.v-d, value): %s' % (bad[:3] or 'none'), '0 when |n.v-d| < errb else the sign of n.v-d', where(hc), key_extra='clip')
     # removal condition in the clip routine
     sc = scen.build_scenario(F)
     cb = F.body(sc.clip_path)
